@@ -885,8 +885,12 @@ impl Add<Duration> for Time {
     type Output = Self;
 
     fn add(self, rhs: Duration) -> Self::Output {
-        let nanos = self.as_nanos() + rhs.as_nanos() as u64;
-        Self::from_nanos(nanos).unwrap()
+        let day_nanos = NANOS_PER_DAY as u128;
+        let nanos = (self.as_nanos() as u128 + rhs.as_nanos() % day_nanos) % day_nanos;
+        Self {
+            nanoseconds: nanos as u64,
+            offset: self.offset,
+        }
     }
 }
 impl AddAssign<Duration> for Time {
@@ -899,8 +903,12 @@ impl Sub<Duration> for Time {
     type Output = Self;
 
     fn sub(self, rhs: Duration) -> Self::Output {
-        let nanos = self.as_nanos() - rhs.as_nanos() as u64;
-        Self::from_nanos(nanos).unwrap()
+        let day_nanos = NANOS_PER_DAY as u128;
+        let nanos = (self.as_nanos() as u128 + day_nanos - rhs.as_nanos() % day_nanos) % day_nanos;
+        Self {
+            nanoseconds: nanos as u64,
+            offset: self.offset,
+        }
     }
 }
 impl SubAssign<Duration> for Time {
